@@ -28,7 +28,7 @@ pub struct PExec {
 
 impl PLedger {
     pub fn new() -> Self {
-        let sim = LedgerSimulatorBuilder::new().with_custom_extension(OverridePackageCode::new(CODE_ID, ProbeInvoke)).build();
+        let sim = LedgerSimulatorBuilder::new().without_receipt_substate_check().with_custom_extension(OverridePackageCode::new(CODE_ID, ProbeInvoke)).build();
         // Ledger::from_sim installs the per-thread verif-hook sink (it is private to rv-ledger).
         let bridge = Ledger::from_sim(LedgerSimulatorBuilder::new().build_from_snapshot(sim.create_snapshot()));
         drop(bridge);
